@@ -74,6 +74,7 @@ func specLargestUnit(d time.Duration) int64 {
 //@ at Session).SendCommand assert [C16.page-all] cmd.Req.Instance == 0
 //@ at Session).SendCommand assert [C16.page-start] cmd.Req.InstanceStart == uint8(len(recordIDs)+1)
 //@ at Session).SendCommand assert [C16.page-room] len(recordIDs) < 255
+//@ at return#2 assert [C16.page-complete] arg[error](1) == nil && (len(recordIDs) >= totalInstances || len(cmd.Rsp.RecordIDs) == 0 || len(recordIDs) == 255)
 //@ ensures [C16.no-partial] result1 != nil ==> isnil(result0)
 
 // ---- sensor_info.go: one enumeration per entity, and the choice between the two entity-ID families
